@@ -144,3 +144,73 @@ def compare_fact(name_pred, op_types, const_pred, truth_when_op):
 def is_minus_one(e):
     return isinstance(e, ast.UnaryOp) and isinstance(e.op, ast.USub) and isinstance(e.operand, ast.Constant) and \
         e.operand.value == 1
+
+
+# ---------------------------------------------------------------------- A5e: a modification is applied unless empty
+def check_applied_unless_empty(ctx, fns, apply_name='get_for_adjusted', rule='A5e'):
+    """`if <test over the containers>: g = g.get_for_adjusted(removed_x=X, ...)`: a computed modification may be
+    skipped only when every container handed to the derive operation is empty.  The test is evaluated over all
+    combinations of container sizes 0..2: whenever some container is non-empty it has to hold."""
+    import itertools
+    from . import intcmp
+    n = 0
+    for fn in fns:
+        for node in ast.walk(fn.node):
+            if not isinstance(node, ast.If) or node.orelse:
+                continue
+            applies = [c for s in node.body for c in ast.walk(s)
+                       if isinstance(c, ast.Call) and isinstance(c.func, ast.Attribute) and c.func.attr == apply_name]
+            if len(applies) != 1:
+                continue
+            passed = [norm(kw.value) for kw in applies[0].keywords if isinstance(kw.value, ast.Name)]
+            tested = {x.id for x in ast.walk(node.test) if isinstance(x, ast.Name)} - {'len'}
+            if not passed or not tested or not tested <= set(passed):
+                continue        # the guard is about something else than the emptiness of what is applied
+            names = sorted(tested)
+            bad = None
+            try:
+                for sizes in itertools.product((0, 1, 2), repeat=len(names)):
+                    if not any(sizes):
+                        continue
+                    env = {f'len({nm})': sz for nm, sz in zip(names, sizes)}
+                    envb = dict(env)
+                    envb.update({nm: (1 if sz else 0) for nm, sz in zip(names, sizes)})   # truthiness of a container
+                    if not intcmp.holds(node.test, lambda e: False, None, envb):
+                        bad = dict(zip(names, sizes))
+                        break
+            except intcmp.NotSimple as e:
+                raise AnalysisError(f'{fn.key}: guard of {apply_name} not understood: {norm(node.test)} ({e})')
+            n += 1
+            ctx.touch(fn)
+            ctx.ob(rule, fkey(fn, rule, f'applied-unless-empty:{",".join(names)}'), bad is None,
+                   f'{fn.module.relpath}:{node.lineno}',
+                   f'the computed modification ({", ".join(names)}) is applied to the graph whenever it is not empty',
+                   f'`if {norm(node.test)}` holds for every non-empty combination' if bad is None else
+                   f'`if {norm(node.test)}` skips the modification for sizes {bad}: these nodes/edges stay in the graph')
+    return n
+
+
+# ---------------------------------------------------------------------- A5w: every iteration contributes
+def check_loop_contributes(ctx, rule, fn, iter_pred, contribute_pred, exempt_pred, keytext, desc):
+    """In the `for` loop of fn whose iterable satisfies iter_pred, every path through one iteration (body start
+    back to the loop head) passes a statement satisfying contribute_pred - except along edges on which a fact
+    (atom, truth) with exempt_pred holds (iterations that have nothing to contribute), and exceptional exits."""
+    cfg = build_cfg(fn)
+    ctx.touch(fn)
+    heads = [n for n in cfg.nodes if n.kind == 'for' and iter_pred(n.ast.iter)]
+    if len(heads) != 1:
+        raise AnalysisError(f'{rule} {fn.key}: expected one loop for "{keytext}", found {len(heads)}')
+    head = heads[0]
+    through = nodes_with(cfg, contribute_pred)
+    exempt = cfg.edges_implying(exempt_pred)
+    starts = [m for m, lab in head.succ if lab == 'T']
+    reach = cfg.reachable(starts, blocked_nodes=through, blocked_edges=exempt, labels_excluded=('exc',))
+    bad = head.id in reach
+    detail = f'{len(through)} contributing statement(s), {len(exempt)} exempting edge(s)'
+    if bad:
+        for st in starts:
+            p = cfg.find_path(st, head, blocked_nodes=through, blocked_edges=exempt, labels_excluded=('exc',))
+            if p:
+                detail = f'iteration without contribution: {path_text(p)}'
+                break
+    return ctx.ob(rule, fkey(fn, rule, keytext), not bad, f'{fn.module.relpath}:{head.lineno}', desc, detail)
